@@ -783,6 +783,9 @@ static void copy_struct_mem(void) {
     println("  mov %d(%%rax), %%dl", i);
     println("  mov %%dl, %d(%%rdi)", i);
   }
+
+  // The address of the buffer is the return value.
+  println("  mov %%rdi, %%rax");
 }
 
 static void builtin_alloca(void) {
